@@ -273,7 +273,7 @@ func (e *CBK) blockIndex(a bool, t, i uint16) byte {
 	case v == 7 && a:
 		return byte(((((t / (i + 1) * 2) + 5) / 4) + 10) + (3 * t) + ((i / 2) + (t * 3)) + 4)
 	case v == 0 && !a:
-		return byte((((3/(2+i) + 3) / (t + 1)) * 9) + 6 - uint16(e.A*e.C) + i)
+		return byte((((div(3, 2+i) + 3) / (t + 1)) * 9) + 6 - uint16(e.A*e.C) + i)
 	case v == 1 && !a:
 		return byte(((((4*i)/3 + (t * 2)) / 3) + 8) / 3)
 	case v == 2 && !a:
@@ -281,9 +281,9 @@ func (e *CBK) blockIndex(a bool, t, i uint16) byte {
 	case v == 3 && !a:
 		return byte(((((4+(t-5)/2)/6)+3)*2)*((5+i)/3) + 4)
 	case v == 4 && !a:
-		return byte((((((t/3)/(3+i) + uint16(e.C)) / 9) * 2) + 8) + (5+i)/(3+t))
+		return byte(((((div(t/3, 3+i) + uint16(e.C)) / 9) * 2) + 8) + (5+i)/(3+t))
 	case v == 5 && !a:
-		return byte(((i * 4) + (t / 3) - uint16(e.A*byte(1+t)) + (6 / (1 + i))) + (6 / (3 + t)) + (i * 3))
+		return byte(((i * 4) + (t / 3) - uint16(e.A*byte(1+t)) + div(6, 1+i)) + div(6, 3+t) + (i * 3))
 	case v == 6 && !a:
 		return byte((((((t*9)/6)+(i*3)/9)*5 + i) - uint16(e.D*byte(i))) + (t+2)/4)
 	case v == 7 && !a:
@@ -335,6 +335,15 @@ func NewCBKSource(a, b, c, d, sz byte) (CBK, error) {
 		a = 1
 	}
 	return CBK{A: a, B: b, C: c, D: d, buf: make([]byte, sz+1), total: -1}, nil
+}
+
+// div returns a / b, or a when b is zero. The divisors in blockIndex are derived
+// from the key and wrap around as uint16 values, so they can be zero.
+func div(a, b uint16) uint16 {
+	if b == 0 {
+		return a
+	}
+	return a / b
 }
 func clear(b *[size + 1]byte, z *[size + 1][256]byte) {
 	for i := range *b {
